@@ -10,7 +10,7 @@ ID = "C04"
 RULE = ("A source file from the grammars with valid non-canonical spellings (leading zeros, '+5', scientific floats, CRLF, optional SAM tags, "
         "FASTQ '+name' lines, header lines), read lazily, for BED3, BED6, narrowPeak, VCF, SAM, FASTQ, two-line FASTA (and GTF, which reads eagerly). "
         "A selection program of up to 6 steps over a pool of tables: slice with any start/stop/step (negative too), boolean mask, integer list "
-        "with repeats and negatives, np.concatenate of two earlier results, bnp.replace of one field with a new array in the column's own "
+        "with repeats and negatives, a same-length permutation (reversal, rotation, swapped neighbours), np.concatenate of two earlier results, bnp.replace of one field with a new array in the column's own "
         "representation; observation steps anywhere in the program write a table with NpBufferedWriter or convert it to rows (so later steps see what an earlier write did to shared buffers); the final table is always written. "
         "Oracle: a byte-level model (list of source record byte strings + per-row replaced fields). Unmodified tables must be written as header + "
         "the selected records' original bytes in order. Modified tables: every column that was never replaced keeps each record's original "
@@ -30,7 +30,7 @@ ASSUMPTIONS = [
     "BAM table raises; that is the tolerant class 'bam-write-unsupported'. bnp.replace is not generated for BAM for the same reason.",
 ]
 REQUIRED_CLASSES = ["negative-step", "repeats", "empty-selection", "select-select-concat", "replace-then-select", "select-then-replace",
-                    "crlf", "noncanonical-int", "unmodified", "modified", "observed-then-continued", "write-and-rows",
+                    "crlf", "noncanonical-int", "unmodified", "modified", "observed-then-continued", "write-and-rows", "same-length-permutation",
                     "bam", "bam-write-selection", "bam-observe-after-write", "bam-get-then-write"]
 BOUNDS = {"quick": "500 (file, program) pairs for each of 8 text formats, up to 10 records, programs of up to 6 steps; 400 BAM pairs of up to 6 records",
           "thorough": "10000 pairs per text format, up to 30 records, programs of up to 8 steps; 9600 BAM pairs of up to 16 records"}
@@ -108,6 +108,17 @@ def _resolve_index(op, n):
         return bits, np.array(bits, dtype=bool)
     if kind == "ilist":
         idx = [(i % (2 * n)) - n for i in op["idx"]] if n else []
+        return idx, np.array(idx, dtype=int)
+    if kind == "perm":
+        # a selection of the same length as the table that is not the identity: reversal, rotation or swapped neighbours
+        k = op["seed"]
+        if k % 3 == 0:
+            idx = list(range(n))[::-1]
+        elif k % 3 == 1:
+            r = (1 + k // 3) % n if n else 0
+            idx = list(range(r, n)) + list(range(r))
+        else:
+            idx = [i + 1 if i % 2 == 0 and i + 1 < n else (i - 1 if i % 2 == 1 else i) for i in range(n)]
         return idx, np.array(idx, dtype=int)
     raise ValueError(kind)
 
@@ -188,7 +199,9 @@ def classify(case):
         cl.append("repeats")
     if any((op["op"] == "mask" and not any(op["bits"])) or (op["op"] == "ilist" and not op["idx"]) for op in prog):
         cl.append("empty-selection")
-    sel = ("slice", "mask", "ilist")
+    sel = ("slice", "mask", "ilist", "perm")
+    if "perm" in kinds:
+        cl.append("same-length-permutation")
     for i, k in enumerate(kinds):
         if k == "concat" and sum(1 for x in kinds[:i] if x in sel) >= 2:
             cl.append("select-select-concat")
@@ -379,7 +392,8 @@ def op_strategy(fmt):
     repl = st.builds(lambda f, s: {"op": "replace", "src": 0, "field": f, "seed": s},
                      st.sampled_from(sorted(REPL[fmt])), st.integers(0, 1000))
     obs = st.sampled_from([{"op": "write", "src": 0}, {"op": "rows", "src": 0}])
-    base = st.one_of(sl, mask, ilist, concat, repl, sl, ilist, obs)
+    perm = st.integers(0, 20).map(lambda k: {"op": "perm", "src": 0, "seed": k})
+    base = st.one_of(sl, mask, ilist, concat, repl, sl, ilist, obs, perm)
 
     def with_src(op, src):
         if "src" in op:
